@@ -55,9 +55,11 @@ Fixpoint split_cdata_go (s cur : bytes) : list bytes :=
   match s with
   | [] => [frev cur]
   | x :: r =>
-      match x, r with
-      | 93, 93 :: 62 :: r2 => (frev cur ++ [93; 93]) :: split_cdata_go r2 [62]
-      | _, _ => split_cdata_go r (x :: cur)
+      match r with
+      | y :: z :: r2 =>
+          if (x =? 93) && (y =? 93) && (z =? 62) then (frev cur ++ [93; 93]) :: split_cdata_go r2 [62]
+          else split_cdata_go r (x :: cur)
+      | _ => split_cdata_go r (x :: cur)
       end
   end.
 Definition split_cdata (s : bytes) : list bytes := split_cdata_go s [].
